@@ -109,7 +109,11 @@ func main() {
 		c := NewCtx("adhoc", tier, repo, verif)
 		p := c.G()
 		fd := p.Func(pos[0])
-		sps := p.LoopSegmentPaths(fd, mainSwitchLoop(p, fd), 100000)
+		lp := mainSwitchLoop(p, fd)
+		if lp == nil {
+			lp = outerLoop(fd)
+		}
+		sps := p.LoopSegmentPaths(fd, lp, 100000)
 		fmt.Println("segment paths:", len(sps))
 		for i, sp := range sps {
 			if len(pos) > 1 && fmt.Sprint(i) != pos[1] {
